@@ -21,13 +21,7 @@ Theorem C02_linked_list_repr_meaning : forall (s : lstore) o xs,
   exists ids, ll_head o = hd_ptr ids None /\ seg elem s ids xs None /\ NoDup ids /\
               ll_len o = Z.of_nat (length xs) /\
               (forall i n, nth_error s i = Some (Some n) -> In i ids).
-Proof.
-  exact (fun s o xs => conj
-    (fun H => match H with ex_intro _ ids (conj (conj a (conj b (conj c d))) e) =>
-                ex_intro _ ids (conj a (conj b (conj c (conj d e)))) end)
-    (fun H => match H with ex_intro _ ids (conj a (conj b (conj c (conj d e)))) =>
-                ex_intro _ ids (conj (conj a (conj b (conj c d))) e) end)).
-Qed.
+Proof. exact (Repr_unfold elem). Qed.
 Print Assumptions C02_linked_list_repr_meaning.
 
 (* one operation *)
